@@ -88,7 +88,7 @@ class ArrayConstraintBuilder(ConstraintOverrideVisitor):
         self.foreach_scope_s.pop()
         
     def visit_constraint_if_else(self, c:ConstraintIfElseModel):
-        is_x, val = XExprEvaluator().eval(c.cond)
+        is_x, val = XExprEvaluator(self.index_set).eval(c.cond)
         
         if not is_x:
             # Condition is a constant
